@@ -175,14 +175,16 @@ Commit(t, sn, chs, ws, ok, pf, hit, pafter) ==
   /\ sn \in Snaps(t)
   /\   LET a == sn.act  p == Other(sn.act)
            attempt == ~sn.failed
-           broken  == attempt /\ ((pf # "none" /\ hit) \/ AnyConflict(fold[p], chs))
+           \* a passive write fails: injected obstacle, add of a present / removal of an absent handle, or the
+           \* transaction still writes to a drive that is already marked failed (whatever state that drive is in)
+           broken  == attempt /\ ((pf # "none" /\ hit) \/ AnyConflict(fold[p], chs) \/ Pulled.failed)
        IN
        /\ \A c \in chs : c.s \in fold[a].list
        /\ IF broken
           THEN \* handleFailedToReplicate: pull, set the flag, persist it in the active folder, push
                /\ fold' = [fold EXCEPT ![a] = ApplyAll(@, chs, FALSE), ![p] = pafter]
                /\ IF Pulled.failed
-                  THEN mem' = Pulled /\ UNCHANGED <<l2, rs, newer>> /\ used' = Use("staleSnapshot", sn # Cur)
+                  THEN mem' \in {mem, Pulled} /\ UNCHANGED <<l2, rs, newer>> /\ used' = Use("staleSnapshot", sn # Cur)
                   ELSE /\ mem' = Det(TRUE, Pulled.act, Pulled.logging) /\ l2' = mem'
                        /\ WriteRS(a, Det(TRUE, sn.act, sn.logging))
                        /\ StatusWritten(Use("staleSnapshot", sn # Cur))
@@ -272,7 +274,13 @@ ReinCopyStore(s) ==
          \* without passive info is skipped ("deleted concurrently"), otherwise that info is written back
          seen  == IF cinfo[p][s] # NoInfo THEN cinfo[p][s] ELSE fold[p].info[s]
          code  == IF seen = NoInfo THEN fold[p] ELSE SetStore(fold[p], s, seen, fold[a].reg[s])
+         \* the info comes through the L2 cache: a transaction that committed into this folder with the tracker of
+         \* another era (stale snapshot) has left the cache entry behind the file
+         cached == IF s \in fold[a].list /\ cinfo[a][s] # NoInfo THEN SetStore(fold[p], s, cinfo[a][s], fold[a].reg[s]) ELSE ideal
      IN \/ fold' = [fold EXCEPT ![p] = ideal] /\ UNCHANGED <<cinfo, used>>
+        \/ /\ Has("staleSnapshot") /\ cached # ideal
+           /\ fold' = [fold EXCEPT ![p] = cached] /\ UNCHANGED cinfo
+           /\ used' = used \cup {"staleSnapshot"}
         \/ /\ Has("copyReadsPassive") /\ code # ideal
            /\ fold' = [fold EXCEPT ![p] = code]
            /\ cinfo' = [cinfo EXCEPT ![p][s] = seen]
@@ -325,15 +333,22 @@ ReinFF(round) ==
 
 \* code: a log that adds a handle the copy already brought over (or removes one the passive side never had)
 \* makes Replicate fail; ReinstateFailedDrives returns the error, the log stays, replication stays off.
+\* the logs before the first one that cannot be applied are applied and deleted
+RECURSIVE FFRemain(_, _)
+FFRemain(f, ls) ==
+  IF ls = <<>> THEN <<>>
+  ELSE IF AnyConflict(f, Head(ls)) THEN ls ELSE FFRemain(ApplyAll(f, Patched(Head(ls)), TRUE), Tail(ls))
+
 ReinFFFails(phase, pafter) ==
   /\ Has("ffNotIdempotent")
   /\ \/ phase = "ff" /\ rein.pc = "copied"
      \/ phase = "ff2" /\ rein.pc = "on"
   /\ FFConflict(fold[Other(mem.act)], logs)
   /\ fold' = [fold EXCEPT ![Other(mem.act)] = pafter]
+  /\ logs' = FFRemain(fold[Other(mem.act)], logs)
   /\ rein' = [pc |-> "idle", todo |-> <<>>]
   /\ used' = used \cup {"ffNotIdempotent"}
-  /\ UNCHANGED <<mem, l2, rs, newer, txn, logs, cinfo, content>>
+  /\ UNCHANGED <<mem, l2, rs, newer, txn, cinfo, content>>
 
 ReinTurnOn ==
   /\ rein.pc = "ffdone"
@@ -388,7 +403,7 @@ AllR == {fold[i].info[s].r : i \in 1..2, s \in Stores} \cup {cinfo[i][s].r : i \
 FreshLid == Max(AllLids) + 1
 FreshR   == Max(AllR) + 1
 
-BudgetCD    == [begin |-> 2, create |-> 1, commit |-> 1, fail |-> 1, drop |-> 1, wipe |-> 0, failover |-> 0, reins |-> 1]
+BudgetCD    == [begin |-> 1, create |-> 1, commit |-> 0, fail |-> 1, drop |-> 1, wipe |-> 0, failover |-> 0, reins |-> 1]
 BudgetTiny  == [begin |-> 2, create |-> 0, commit |-> 2, fail |-> 1, drop |-> 0, wipe |-> 0, failover |-> 0, reins |-> 1]
 BudgetQuick == [begin |-> 2, create |-> 0, commit |-> 2, fail |-> 1, drop |-> 0, wipe |-> 1, failover |-> 1, reins |-> 1]
 BudgetSmall == [begin |-> 2, create |-> 1, commit |-> 2, fail |-> 1, drop |-> 1, wipe |-> 1, failover |-> 1, reins |-> 1]
